@@ -172,6 +172,10 @@ class Check(object):
             print("KNOWN-FINDING: property=%s %s (matched %d event(s))" % (self.prop, what, n))
         if self.violations:
             rc = 1
+            import collections
+            summ = collections.Counter((str(sig.get("proc", sig.get("kind", ""))), str(sig.get("clause", ""))) for sig, _ in self.violations)
+            for (a, b), n in summ.most_common(30):
+                print("violation-class %s/%s: %d" % (a, b, n))
             d = os.path.join(REPLAY, self.prop)
             os.makedirs(d, exist_ok=True)
             seen = set()
